@@ -212,6 +212,11 @@ def _apply_srp_config_override(
     srp_config = ensure_config_section(orchestrator, "srp")
     set_config_value(srp_config, "max_methods", max_methods, verbose)
     set_config_value(srp_config, "max_loc", max_loc, verbose)
+    # The command-line option also wins over per-language overrides (as --max-depth does)
+    for lang in ("python", "typescript", "javascript", "rust"):
+        if isinstance(srp_config.get(lang), dict):
+            set_config_value(srp_config[lang], "max_methods", max_methods, verbose)
+            set_config_value(srp_config[lang], "max_loc", max_loc, verbose)
 
 
 def _run_srp_lint(
